@@ -598,12 +598,20 @@ func report(spec *props.Spec, v *props.Violation, dir string, seed uint64, known
 		return ""
 	}
 	want := knownStatus(v)
+	// minimisation is bounded in wall-clock time as well as in evaluations: a
+	// candidate tried after the deadline counts as "no longer failing", which
+	// ends the shrinking with what has been reached (cases with very large
+	// inputs cost seconds per evaluation)
+	var shrinkDeadline time.Time
 	still := func(c *props.Case) (ok bool) {
 		defer func() {
 			if recover() != nil {
 				ok = false
 			}
 		}()
+		if !shrinkDeadline.IsZero() && time.Now().After(shrinkDeadline) {
+			return false
+		}
 		for _, x := range spec.Check(c, props.NewCov()) {
 			if x.Clause == v.Clause && knownStatus(x) == want {
 				return true
@@ -661,11 +669,13 @@ func report(spec *props.Spec, v *props.Violation, dir string, seed uint64, known
 	if budget == 0 {
 		budget = 1500
 	}
+	shrinkDeadline = time.Now().Add(4 * time.Minute)
 	if spec.Shrink != nil {
 		min = spec.Shrink(v.Case, still, budget)
 	} else {
 		min = props.Shrink(v.Case, still, budget)
 	}
+	shrinkDeadline = time.Time{}
 	for _, x := range spec.Check(min, props.NewCov()) {
 		if x.Clause == v.Clause {
 			msg = x.Msg
